@@ -26,6 +26,7 @@ var c10Tpls = map[string]string{
 	"T3":       "{% extends 'tb' %}{% block a %}T3a x={{ x }}|{{ probe('x') }}{% endblock %}",
 	"T4":       "T4[{% block a %}t4a x={{ x }}{% endblock %}|{% block b %}t4b{% endblock %}]",
 	"hostbase": "HB({% block a %}hba{% endblock %}/{% block b %}hbb{% endblock %})",
+	"T5":       "{% set x = 'tx' %}{% set fresh = 'f' %}T5[{% block a %}t5a x={{ x }}{% endblock %}|{% block b %}t5b{% endblock %}]",
 }
 
 type c10Vars map[string]string
@@ -51,8 +52,9 @@ func (v c10Vars) copy() c10Vars {
 }
 
 // stmt kinds: include of T0..T4 (0..4); embed of T3 / T4 / tb with overrides {}, {a}, {a,b} (5..13);
-// 14: embed T4 with {a} then embed T4 with {} ; 15: embed tb with {a,b} then include T4
-const c10Stmts = 16
+// 14: embed T4 with {a} then embed T4 with {} ; 15: embed tb with {a,b} then include T4;
+// 16..18: embed of T5 (assigns x and a fresh name at its root) with overrides {}, {a}, {a,b}
+const c10Stmts = 19
 
 // mode: 0 plain, 1 with, 2 only, 3 with only; hashKind: 0 {x,w}, 1 {w}
 func c10Args(mode, hashKind int) string {
@@ -125,6 +127,10 @@ func c10Embed(target string, ov int, v c10Vars) string {
 		a, b = "t4a x="+v.get("x"), "t4b"
 	case "tb":
 		a, b = "ba x="+v.get("x"), "bb"
+	case "T5":
+		a, b = "t5a x=tx", "t5b"
+		v = v.copy()
+		v["x"] = "tx"
 	}
 	if ov >= 1 {
 		a = "ova x=" + v.get("x")
@@ -132,7 +138,7 @@ func c10Embed(target string, ov int, v c10Vars) string {
 	if ov >= 2 {
 		b = "ovb"
 	}
-	pre := map[string]string{"T3": "TB", "T4": "T4", "tb": "TB"}[target]
+	pre := map[string]string{"T3": "TB", "T4": "T4", "tb": "TB", "T5": "T5"}[target]
 	return pre + "[" + a + "|" + b + "]"
 }
 
@@ -158,6 +164,8 @@ func c10Stmt(k, mode, hashKind int, site c10Vars) (src, out string) {
 	case k < 14:
 		t, ov := embTargets[(k-5)/3], (k-5)%3
 		return c10EmbedSrc(t, ov, args), c10Embed(t, ov, v)
+	case k >= 16:
+		return c10EmbedSrc("T5", k-16, args), c10Embed("T5", k-16, v)
 	case k == 14:
 		return c10EmbedSrc("T4", 1, args) + "+" + c10EmbedSrc("T4", 0, args), c10Embed("T4", 1, v) + "+" + c10Embed("T4", 0, v)
 	default:
@@ -267,7 +275,7 @@ func c10Run(c core.Case) core.Result {
 
 func c10Levels(tier string) []core.Level {
 	return []core.Level{
-		{Name: "full product: 7 call sites / host states x 16 include/embed statements x {plain, with, only, with only} x 3 with-hashes (two literals and a host variable holding a Go map, which must be unchanged afterwards)", Gen: func(emit func(core.Case)) {
+		{Name: "full product: 7 call sites / host states x 19 include/embed statements x {plain, with, only, with only} x 3 with-hashes (two literals and a host variable holding a Go map, which must be unchanged afterwards)", Gen: func(emit func(core.Case)) {
 			for host := 0; host < c10Hosts; host++ {
 				for k := 0; k < c10Stmts; k++ {
 					for mode := 0; mode < 4; mode++ {
@@ -288,7 +296,7 @@ func init() {
 	core.Register(&core.Check{
 		ID:       "C10",
 		Category: "exploration",
-		Rule: "full product of: call site / host state (top level with x unset or set; loop body with the loop variable named x or another name; block body of an extending child whose blocks are named like the target's, x set or unset; macro body with parameter x) x statement (include of 5 targets: printing x,y,w with definedness, setting x, setting a fresh name, extending a base, defining blocks named like the host's; embed of 3 targets with overrides {}, {a}, {a,b}; the same target embedded twice with different overrides; embed followed by include) x {plain, with, only, with only} x 3 with-hashes (two literals and a host variable holding a Go map, which must be unchanged afterwards); the host prints x and the definedness of the fresh name afterwards. " +
+		Rule: "full product of: call site / host state (top level with x unset or set; loop body with the loop variable named x or another name; block body of an extending child whose blocks are named like the target's, x set or unset; macro body with parameter x) x statement (include of 5 targets: printing x,y,w with definedness, setting x, setting a fresh name, extending a base, defining blocks named like the host's; embed of 4 targets (one assigning variables at its root) with overrides {}, {a}, {a,b}; the same target embedded twice with different overrides; embed followed by include) x {plain, with, only, with only} x 3 with-hashes (two literals and a host variable holding a Go map, which must be unchanged afterwards); the host prints x and the definedness of the fresh name afterwards. " +
 			"Reference: visible variables = call-site variables plus with-hash, or with-hash only; no write-back; overrides per embed only; host blocks irrelevant. distinct = distinct configuration; non-trivial = all",
 		Assumptions: []string{"inside a macro body only the parameter is at the call site (stick's macro scope also exposes outer variables; not claimed)"},
 		Levels:      c10Levels,
